@@ -67,11 +67,11 @@ type Node struct {
 	Cli   *cluster.Client
 	Proxy *proxy.Proxy
 
-	Up       bool
-	Starts   int
-	Extra    func(n *Node) error // optional hook run after the store is constructed, before Open
+	Up        bool
+	Starts    int
+	Extra     func(n *Node) error // optional hook run after the store is constructed, before Open
 	AfterOpen func(n *Node) error
-	OnStop   func(n *Node)
+	OnStop    func(n *Node)
 }
 
 // raftLayer is the 20-line stand-in for tcp.Layer/tcp.Dialer: it dials over
